@@ -638,10 +638,10 @@ impl World {
 
     async fn align(&self, lo_ms: u64, hi_ms: u64) {
         let t0 = Instant::now();
-        while !self.window_ok(Instant::now(), lo_ms, hi_ms) && t0.elapsed() < Duration::from_secs(4) {
+        while !self.window_ok(Instant::now(), lo_ms, hi_ms) && t0.elapsed() < Duration::from_secs(2) {
             tokio::time::sleep(Duration::from_millis(4)).await;
         }
-        if t0.elapsed() >= Duration::from_secs(4) && std::env::var("HX_TIMING").is_ok() {
+        if t0.elapsed() >= Duration::from_secs(2) && std::env::var("HX_TIMING").is_ok() {
             let now = Instant::now();
             for s in &self.subs {
                 eprintln!("  align timeout: sub {} width {:?} since_hi {:?}", s.sid, s.t_ref_hi - s.t_ref_lo, now - s.t_ref_hi);
@@ -1151,29 +1151,35 @@ impl World {
         let mut nb = 0usize;
         if matched > s.matched_seen {
             s.matched_seen = matched;
+            // Wait for a batch that started after the last candidate message of the group was sent: the
+            // matcher drains its channel before it looks at the deadline, so that batch contains them all.
+            // A batch that started earlier may have missed the later messages: then another one follows
+            // within one deadline (give it 3 s; the machine may be busy).
+            let mut ambiguous_since: Option<Instant> = None;
             let t0 = Instant::now();
             loop {
-                let have = s.stats.batches.lock().unwrap().len();
-                if have > s.batches_seen {
-                    break;
+                let all = s.stats.batches.lock().unwrap().clone();
+                if all.len() > s.batches_seen {
+                    nb += all.len() - s.batches_seen;
+                    s.batches_seen = all.len();
+                    let (t_end, dur) = all[all.len() - 1];
+                    s.t_ref_lo = t_end;
+                    s.t_ref_hi = t_end + Duration::from_millis(2);
+                    let t_start = t_end.checked_sub(Duration::from_secs_f64(dur.max(0.0))).unwrap_or(t_end);
+                    if t_start >= self.t_last_send + Duration::from_millis(20) {
+                        break;
+                    }
+                    ambiguous_since = Some(Instant::now());
                 }
-                if t0.elapsed() > LONG {
-                    return Err(format!("sub {}: candidates were matched but no batch was processed within {LONG:?}", s.sid));
+                if let Some(a) = ambiguous_since {
+                    if a.elapsed() > Duration::from_secs(3) {
+                        break;
+                    }
+                } else if t0.elapsed() > Duration::from_secs(90) {
+                    return Err(format!("sub {}: candidates were matched but no batch was processed within 90 s", s.sid));
                 }
                 tokio::time::sleep(Duration::from_millis(3)).await;
             }
-            let (t_end, dur) = s.stats.batches.lock().unwrap()[s.batches_seen];
-            let t_start = t_end.checked_sub(Duration::from_secs_f64(dur.max(0.0))).unwrap_or(t_end);
-            if t_start <= self.t_last_send + Duration::from_millis(1) {
-                // the deadline may have fired in the middle of the group: wait for a possible second batch
-                tokio::time::sleep(DEADLINE + Duration::from_millis(150)).await;
-            }
-            let all = s.stats.batches.lock().unwrap().clone();
-            nb = all.len() - s.batches_seen;
-            s.batches_seen = all.len();
-            let last = all[all.len() - 1].0;
-            s.t_ref_lo = last;
-            s.t_ref_hi = last + Duration::from_millis(2);
             if nb != 1 {
                 self.split = true;
             }
@@ -1714,8 +1720,8 @@ fn gen_case(rng: &mut Rng, tier: Tier, _index: usize) -> Vec<String> {
             live.push(i);
         }
         let ntx = match rng.below(10) {
-            0..=4 => 1,
-            5..=7 => 2,
+            0..=5 => 1,
+            6..=8 => 2,
             _ => 3,
         };
         if !left_mode && rng.chance(1, 6) {
